@@ -112,6 +112,27 @@ pub fn gen(tier: &str, seed: u64) -> Gen {
         }
     }
     fams.push((format!("all conversion-request sequences of length<={} over 8 views on a value and its clone, 33 strings (incl. dictionaries with repeated keys)", maxlen), nreq, !thorough));
+    // values born from typed data whose string nobody has asked for yet: one typed view is requested
+    // on a clone first, then the string must still be the string of the data
+    let typed: Vec<Term> = vec![
+        tag("i", vec![ti(5)]), tag("i", vec![ti(0)]), tag("i", vec![ti(42)]), tag("i", vec![ti(i64::MIN)]), tag("i", vec![ti(-1)]),
+        tag("f", vec![ts("2.5")]), tag("f", vec![ts("0.5")]), tag("f", vec![ts("-1.25")]),
+        tag("b", vec![ti(1)]), tag("b", vec![ti(0)]),
+        tag("l", vec![tstrs(&["a", "b c"])]), tag("l", vec![tstrs(&["1"])]), tag("l", vec![tstrs(&["k", "v", "k", "w"])]), tag("l", vec![tl(vec![])]),
+        tag("d", vec![tstrs(&["k", "v", "j", "w"])]), tag("d", vec![tstrs(&["1", "2"])]),
+    ];
+    let mut nt = 0;
+    for t in &typed {
+        for r1 in REQS.iter().skip(1) {
+            cases.push(tag("reqt", vec![t.clone(), tstrs(&[r1])]));
+            nt += 1;
+            for r2 in REQS.iter().skip(1) {
+                cases.push(tag("reqt", vec![t.clone(), tstrs(&[r1, r2])]));
+                nt += 1;
+            }
+        }
+    }
+    fams.push(("16 values built from typed data (integers, floats, booleans, lists, dictionaries) x every sequence of 1-2 typed views requested before the string is first read".to_string(), nt, true));
     // equality and hashing
     let mut ne = 0;
     for a in &POOL {
@@ -213,6 +234,31 @@ pub fn run(case: &Term) -> Term {
                 stable = stable && v.as_str().as_ptr() as usize == p0 && v.as_str() == s0 && c.as_str() == s0;
             }
             tl(vec![tl(outs), tb(stable)])
+        }
+        "reqt" => {
+            let build = |t: &Term| -> Value {
+                match t.nth(0).as_str() {
+                    "i" => Value::from(t.nth(1).as_int() as i64),
+                    "f" => Value::from(t.nth(1).as_str().parse::<f64>().unwrap()),
+                    "b" => Value::from(t.nth(1).as_int() == 1),
+                    "l" => Value::from(t.nth(1).strs().iter().map(|x| Value::from(x.as_str())).collect::<Vec<Value>>()),
+                    _ => {
+                        let items: Vec<Value> = t.nth(1).strs().iter().map(|x| Value::from(x.as_str())).collect();
+                        let mut d = molt::dict::dict_new();
+                        for p in items.chunks(2) {
+                            d.insert(p[0].clone(), p[1].clone());
+                        }
+                        Value::from(d)
+                    }
+                }
+            };
+            let v = build(case.nth(1));
+            let c = v.clone();
+            for r in case.nth(2).strs() {
+                let _ = view(&c, r.as_str());
+            }
+            let fresh = build(case.nth(1));
+            tl(vec![ts(v.as_str()), ts(fresh.as_str())])
         }
         "eqv" => {
             // compare fresh, then after each single typed view was requested on both sides, then
